@@ -18,6 +18,114 @@ from .impl_thr import CALLS, _CountHandler, err_kind, py_tags, py_timing
 _TOOL = 3  # sys.monitoring tool id
 
 
+class _TrackedSet(set):
+    """the registry under observation: every in-place mutation is reported as a write (results of `-`, `|`, `.copy()`
+    are plain sets again)"""
+    _report = None
+
+    def _w(self):
+        if self._report is not None:
+            self._report("write")
+
+    def add(self, x):
+        self._w(); return set.add(self, x)
+
+    def remove(self, x):
+        self._w(); return set.remove(self, x)
+
+    def discard(self, x):
+        self._w(); return set.discard(self, x)
+
+    def pop(self):
+        self._w(); return set.pop(self)
+
+    def clear(self):
+        self._w(); return set.clear(self)
+
+    def update(self, *a):
+        self._w(); return set.update(self, *a)
+
+    def difference_update(self, *a):
+        self._w(); return set.difference_update(self, *a)
+
+    def intersection_update(self, *a):
+        self._w(); return set.intersection_update(self, *a)
+
+    def symmetric_difference_update(self, a):
+        self._w(); return set.symmetric_difference_update(self, a)
+
+    def __ior__(self, a):
+        self._w(); return set.__ior__(self, a)
+
+    def __iand__(self, a):
+        self._w(); return set.__iand__(self, a)
+
+    def __isub__(self, a):
+        self._w(); return set.__isub__(self, a)
+
+    def __ixor__(self, a):
+        self._w(); return set.__ixor__(self, a)
+
+
+def track_registry(sched, events):
+    """observe every access to the threading scheduler's registry attribute (`self.__jobs`): reads (the attribute is
+    evaluated), writes (it is rebound, or the set is mutated in place), with the thread, the public call in progress,
+    whether that thread holds the registry lock and in which critical section.  Returns False when the implementation
+    keeps its registry elsewhere (nothing is observed then, and nothing is claimed)."""
+    name, lname = "_Scheduler__jobs", "_Scheduler__jobs_lock"
+    d = sched.__dict__
+    if not isinstance(d.get(name), set) or not isinstance(d.get(lname), coop.CoRLock):
+        return False
+    lock = d[lname]
+
+    def report(kind):
+        c = coop.controller()
+        st = c.current if c else None
+        if st is None or getattr(c, "aborting", False):
+            return
+        held = lock.owner is st
+        events.append((st.tid, getattr(st, "cur_call", None), kind, held, getattr(lock, "serial", 0) if held else None))
+
+    def wrap(v):
+        t = _TrackedSet(v)
+        t._report = report
+        return t
+
+    def fget(obj):
+        report("read")
+        return obj.__dict__[name]
+
+    def fset(obj, v):
+        report("write")
+        obj.__dict__[name] = wrap(v) if isinstance(v, set) else v
+
+    d[name] = wrap(d[name])
+    cls = type(sched)
+    sched.__class__ = type(cls.__name__, (cls,), {name: property(fget, fset), "__module__": cls.__module__, "__qualname__": cls.__qualname__})
+    return True
+
+
+def registry_discipline(events):
+    """the hypotheses of the reduction theorem (C14.locked_sections_atomic), on the observed accesses:
+    (W) the registry is written only by a thread that holds the registry lock;
+    (S) all registry accesses of one scheduling / delete_job / delete_jobs call lie in ONE critical section
+        (a value read in an earlier section and written back in a later one is a lost update waiting to happen)."""
+    bad = []
+    for (tid, call, kind, held, serial) in events:
+        if kind == "write" and not held:
+            bad.append(["write-without-registry-lock", tid, list(call) if call else None])
+            break
+    per_call = {}
+    for (tid, call, kind, held, serial) in events:
+        if call is not None and call[-1] in ("sch", "del", "dtags"):
+            per_call.setdefault((tid, call), []).append((kind, held, serial))
+    for (tid, call), evs in per_call.items():
+        if any(k == "write" for k, _h, _s in evs) and (not all(h for _k, h, _s in evs) or len({s_ for _k, _h, s_ in evs}) > 1):
+            bad.append(["read-and-write-in-different-critical-sections", tid, list(call)])
+            break
+    return bad
+
+
 class ConcRunner:
     def __init__(self, scn):
         core.install_clock()
@@ -53,6 +161,8 @@ class ConcRunner:
             st = ctrl.current
             exec_id = getattr(st, "exec_id", None) if st is not None else None
             runner.invocations.append((key, exec_id, st.tid if st else -1))
+            dn = getattr(runner, "due_nolock", None)
+            runner.inv_dues.append((key, dn(cell["job"]) if dn and cell.get("job") is not None else None))
             if cell.get("active"):
                 runner.self_overlap = True
             cell["active"] = True
@@ -86,6 +196,19 @@ class ConcRunner:
         return cb
 
     def run_cop(self, c):
+        k = c["op"]
+        st_ = coop.controller().current if coop.controller() else None
+        prev_call = getattr(st_, "cur_call", None) if st_ is not None else None
+        if st_ is not None:
+            self.cop_serial = getattr(self, "cop_serial", 0) + 1
+            st_.cur_call = ("cb", self.cop_serial, k)
+        try:
+            self._run_cop(c)
+        finally:
+            if st_ is not None:
+                st_.cur_call = prev_call
+
+    def _run_cop(self, c):
         k = c["op"]
         try:
             if k == "sch":
@@ -124,6 +247,8 @@ class ConcRunner:
                 kw["start"] = from_loc(*o["start"])
             if o.get("skip"):
                 kw["skip_missing"] = True
+            if o.get("stop") is not None:
+                kw["stop"] = from_loc(*o["stop"])
         with warnings.catch_warnings():
             warnings.simplefilter("ignore")
             job = getattr(self.sched, call)(timing, cb, **kw)
@@ -147,6 +272,7 @@ class ConcRunner:
                 ctrl.yield_point("call", o["op"])
                 rec["inv"] = self.tick()
                 st = ctrl.current
+                st.cur_call = (ti, oi, o["op"])
                 try:
                     k = o["op"]
                     if k == "exec":
@@ -200,6 +326,7 @@ class ConcRunner:
                     rec["result"] = ("e", err_kind(e), repr(e)[:120])
                     if coop.is_shim_error(e):
                         self.uncontrollable = f"{type(e).__name__}: {e}"
+                st.cur_call = None
                 rec["res"] = self.tick()
                 ctrl.yield_point("return", o["op"])
                 self.records.append(rec)
@@ -225,6 +352,9 @@ class ConcRunner:
 
         self.sched = Scheduler(tzinfo=tz_of(scn.get("tz")), max_exec=scn.get("max_exec", 0),
                                n_threads=scn.get("n_threads", 1), logger=self.logger)
+        self.inv_dues = []
+        self.reg_events = []
+        self.reg_tracked = track_registry(self.sched, self.reg_events)
         # observe the batch each exec_jobs call selects (argument of the private __exec_jobs)
         self.selected = {}
         self.stable = []           # (id(job), due instant) at creation and after every completed rescheduling
@@ -252,6 +382,31 @@ class ConcRunner:
         calc_next_exec.__wrapped__ = self._orig_calc
         self.timer_vals = []
         _bt.JobTimer.calc_next_exec = calc_next_exec
+        # job-level ground truth: the due instant of a job at the end of each of its completed reschedulings
+        # (Job._calc_next_exec), with a logical time stamp; read from the private fields without taking a lock
+        import scheduler.threading.job as _tj
+        self._orig_jcalc = _tj.Job.__dict__.get("_calc_next_exec")
+        self.job_vals = []
+
+        def due_nolock(job):
+            try:
+                d = job.__dict__
+                if not d["_BaseJob__delay"] and d["_BaseJob__attempts"] == 0:
+                    return inst_of(d["_BaseJob__start"])
+                return inst_of(d["_BaseJob__pending_timer"].__dict__["_JobTimer__next_exec"])
+            except Exception:  # noqa: BLE001 - the implementation keeps its state elsewhere: no ground truth
+                return None
+
+        self.due_nolock = due_nolock
+        if self._orig_jcalc is not None:
+            def job_calc(job, *a, **k):
+                t0 = runner_.tick()      # the new value may be visible to others from here on
+                ret = runner_._orig_jcalc(job, *a, **k)
+                runner_.job_vals.append((id(job), t0, due_nolock(job)))
+                return ret
+
+            job_calc.__wrapped__ = self._orig_jcalc
+            _tj.Job._calc_next_exec = job_calc
         # a job this scheduler has never seen (created before the controlled phase)
         self.foreign = Scheduler(tzinfo=tz_of(scn.get("tz"))).cyclic(_dt.timedelta(days=400), lambda: None)
         for b, n in (scn.get("barriers") or {}).items():
@@ -293,6 +448,8 @@ class ConcRunner:
                 self._remove_line_preemption()
             coop.set_controller(None)
             _bt.JobTimer.calc_next_exec = self._orig_calc
+            if self._orig_jcalc is not None:
+                _tj.Job._calc_next_exec = self._orig_jcalc
         for rec in self.records:
             if rec.get("result", ("",))[0] == "s*":
                 rec["result"] = ("s", sorted(self.key_of.get(id(j), 10**6) for j in rec["result"][1]))
@@ -306,17 +463,41 @@ class ConcRunner:
         for k, j in enumerate(self.created):
             for t in getattr(j, "_BaseJob__timers", []):
                 timer_owner[id(t)] = k
+        ntimers = {k: len(getattr(j, "_BaseJob__timers", [])) for k, j in enumerate(self.created)}
+        job_level_ok = self._orig_jcalc is not None and all(v is not None for (_j, _t, v) in self.job_vals)
         for (tid_, val) in self.timer_vals:
-            if tid_ in timer_owner:
+            # a job with ONE timer is due when that timer is; with several timers the due time is their minimum, which only
+            # the job-level samples below give (a single timer's value is not a due time of the job)
+            if tid_ in timer_owner and (ntimers.get(timer_owner[tid_], 1) <= 1 or not job_level_ok):
                 stable.setdefault(timer_owner[tid_], set()).add(val)
+        timeline = {}
+        for k, j in enumerate(self.created):
+            timeline[k] = []
+        for (jid, due) in self.stable:
+            if jid in self.key_of:
+                timeline[self.key_of[jid]].append((0, due))
+        for (jid, tick, val) in self.job_vals:
+            if jid in self.key_of and val is not None:
+                stable.setdefault(self.key_of[jid], set()).add(val)
+                timeline[self.key_of[jid]].append((tick, val))
         out["stable_dues"] = {k: sorted(v) for k, v in stable.items()}
+        out["due_timeline"] = timeline if job_level_ok else None
+        out["now"] = CLOCK.instant
         out["records"] = self.records
         out["invocations"] = self.invocations
+        out["inv_dues"] = self.inv_dues
+        out["reschedulings"] = {}
+        for (jid, _t, _v) in self.job_vals:
+            if jid in self.key_of:
+                out["reschedulings"][self.key_of[jid]] = out["reschedulings"].get(self.key_of[jid], 0) + 1
+        out["stops"] = {k: (inst_of(j.stop) if getattr(j, "stop", None) is not None else None) for k, j in enumerate(self.created)}
         out["schedule"] = list(ctrl.schedule)
         out["trace_len"] = len(ctrl.trace)
         out["edges"] = sorted(ctrl.edges)
         out["wait_violations"] = list(ctrl.wait_violations)
         out["left_holding"] = [(t.name, list(t.held)) for t in ctrl.threads if t.finished and t.held and not out["deadlock"]]
+        out["registry_accesses"] = len(self.reg_events) if self.reg_tracked else None
+        out["registry_discipline"] = registry_discipline(self.reg_events) if self.reg_tracked else []
         out["max_parallel"] = self.max_parallel
         out["self_overlap"] = self.self_overlap
         try:
